@@ -97,7 +97,8 @@ struct IdxOp { char op; uint32 pos; std::string key; };
 struct IdxUpd { std::string node; std::vector<IdxOp> ops; };
 
 struct Client {
-   std::string name;                      // the specification's name of this slot (W1, S, ...)
+   std::string name;                      // the specification's name of this slot (W1, S, ...); random histories: base#incarnation, a new name after every disconnect
+   std::string base; int inc;
    ConstSocketRef sock; MessageIOGateway * gw; QueueGatewayMessageReceiver rx;
    TSession * sess; uint32 sid; std::string root; bool connected;
    std::map<std::string,uint32> mirror;                   // absolute path -> payload (what-code)
@@ -108,7 +109,7 @@ struct Client {
    std::vector<Upd> upds; std::vector<IdxUpd> iupds;      // received during the current command
    std::set<std::string> snapshots;                       // nodes for which a 'c' opcode arrived during the current command
    SV idxFaults;                                          // index opcodes that cannot be applied (position beyond the mirror, name mismatch)
-   Client() : gw(NULL), sess(NULL), sid(0), connected(false) {}
+   Client() : inc(1), gw(NULL), sess(NULL), sid(0), connected(false) {}
    bool PathSubscribed(const std::string & p) const { for (size_t i=0; i<subs.size(); i++) if (PathMatch(subs[i].sp, p)) return true; return false; }
    bool Selected(const std::string & p, uint32 v) const { for (size_t i=0; i<subs.size(); i++) if ((PathMatch(subs[i].sp, p))&&((subs[i].f == 0)||((uint32)subs[i].f == v))) return true; return false; }
    bool Owns(const std::string & p) const { return (connected)&&((p == root)||(p.compare(0, root.size()+1, root+"/") == 0)); }
@@ -135,13 +136,14 @@ struct World {
    std::map<std::string, std::string> idToName;    // session id string -> specification name (dead incarnations: name~id)
    SV violations04, violations13, drift;
    Tree before;                                    // the server's state before the last command
-   World() : srv(NULL) {}
+   bool uniqueNames;                               // every incarnation of a client slot gets its own name (traces given to TLC: a path names one node for ever)
+   World() : srv(NULL), uniqueNames(false) {}
    ~World() { Close(); }
 
    void Open(const SV & names)
    {
       srv = new ReflectServer; srv->SetDoLogging(false);
-      for (size_t i=0; i<names.size(); i++) { Client * c = new Client; c->name = names[i]; cs.push_back(c); }
+      for (size_t i=0; i<names.size(); i++) { Client * c = new Client; c->base = names[i]; c->name = uniqueNames ? (names[i] + "#1") : names[i]; cs.push_back(c); }
    }
    void Close()
    {
@@ -392,7 +394,7 @@ struct World {
       Client & c = *cp;
       if (op == "connect") { Walk(before); if (!c.connected) { Connect(c); Pump(); } return; }
       if (!c.connected) return;
-      if (op == "disconnect") { Walk(before); Disconnect(c); Pump(); return; }
+      if (op == "disconnect") { Walk(before); Disconnect(c); Pump(); if (uniqueNames) c.name = c.base + "#" + std::to_string((long long) ++c.inc); return; }
 
       Walk(before);
       const bool quiet = cmd["quiet"].truthy();
@@ -808,12 +810,12 @@ static int Explore(int argc, char ** argv)
       rng.seed(seed*1000003u + (uint32) h*7919u + (idxHeavy ? 17u : 0u));
       const int ns = 3 + (int) R(2);
       SV names; const char * nm[] = {"A", "B", "C", "D"}; for (int i=0; i<ns; i++) names.push_back(nm[i]);
-      World w; w.Open(names); Gen g(idxHeavy);
+      World w; w.uniqueNames = true; w.Open(names); Gen g(idxHeavy);
       const bool logit = (trace)&&(h < ntraces);
       if (logit) { J r = J::Obj(); r.set("e", J::Str("Reset")); r.set("h", J::Int(h)); fprintf(trace, "%s\n", mj::ToString(r).c_str()); tracelines++; }
       J hist = J::Arr(); bool bad = false; int step = 0;
       alarm(120);
-      for (int i=0; i<ns; i++) { J c = Cmd("connect", names[i]); w.Exec(c); hist.push(c); if (logit) { Tree t; w.Walk(t); fprintf(trace, "%s\n", mj::ToString(TraceLine(w, c, t)).c_str()); tracelines++; } }
+      for (int i=0; i<ns; i++) { J c = Cmd("connect", w.cs[i]->name); w.Exec(c); hist.push(c); if (logit) { Tree t; w.Walk(t); fprintf(trace, "%s\n", mj::ToString(TraceLine(w, c, t)).c_str()); tracelines++; } }
       for (step=0; (step<ncmds)&&(!bad); step++)
       {
          Client & c = *w.cs[R((uint32)ns)];
@@ -930,6 +932,7 @@ static int Run(const char * file)
    if (b.has("replay")) { J r = b["replay"]; b = r; }
    g_report = stdout;
    World w; SV names; for (size_t i=0; i<b["sessions"].a.size(); i++) names.push_back(b["sessions"].a[i].s);
+   for (size_t i=0; i<b["commands"].a.size(); i++) if (b["commands"].a[i]["s"].s.find('#') != std::string::npos) w.uniqueNames = true;
    w.Open(names);
    bool explicitConnect = false; for (size_t i=0; i<b["commands"].a.size(); i++) if (b["commands"].a[i]["op"].s == "connect") explicitConnect = true;
    if (!explicitConnect) for (size_t i=0; i<w.cs.size(); i++) { w.Connect(*w.cs[i]); w.Pump(); }
